@@ -7,54 +7,7 @@
 #include <wchar.h>
 #include <errno.h>
 
-void *__real_malloc(size_t);
-void *__real_calloc(size_t, size_t);
-void *__real_realloc(void *, size_t);
-void __real_free(void *);
-
-static volatile int a_armed;
-static int a_count, a_fail_at, a_failed;
-#define LIVE_MAX 64
-static void *a_live[LIVE_MAX];
-static int a_nlive, a_foreign_free;
-
-static void live_add(void *p) { if (p && a_nlive < LIVE_MAX) a_live[a_nlive++] = p; }
-static int live_del(void *p) {
-    int i;
-    for (i = 0; i < a_nlive; i++) if (a_live[i] == p) { a_live[i] = a_live[--a_nlive]; return 1; }
-    return 0;
-}
-void *__wrap_malloc(size_t n) {
-    void *p;
-    if (!a_armed) return __real_malloc(n);
-    a_count++;
-    if (a_fail_at && a_count == a_fail_at) { a_failed = 1; errno = ENOMEM; return NULL; }
-    p = __real_malloc(n);
-    live_add(p);
-    return p;
-}
-void *__wrap_calloc(size_t a, size_t b) {
-    void *p;
-    if (!a_armed) return __real_calloc(a, b);
-    a_count++;
-    if (a_fail_at && a_count == a_fail_at) { a_failed = 1; errno = ENOMEM; return NULL; }
-    p = __real_calloc(a, b);
-    live_add(p);
-    return p;
-}
-void *__wrap_realloc(void *q, size_t n) {
-    void *p;
-    if (!a_armed) return __real_realloc(q, n);
-    a_count++;
-    if (a_fail_at && a_count == a_fail_at) { a_failed = 1; errno = ENOMEM; return NULL; }
-    p = __real_realloc(q, n);
-    if (p) { if (q) live_del(q); live_add(p); }
-    return p;
-}
-void __wrap_free(void *p) {
-    if (a_armed && p) { if (!live_del(p)) a_foreign_free++; }
-    __real_free(p);
-}
+#include "wraps.h"
 
 enum { S_LS, S_LONGDOUBLE, S_HEXFLOAT, S_WIDE_NOSPC, S_NORM_MARKS, S_NORM_LONG, S_COMPOSE, S_WCSICMP, S_WCSNATCMP, S_LS_BAD, S_NSITES };
 static const char *site_name[] = {"printf-%ls", "printf-%L*", "printf-%a", "wprintf-nospace-probe", "wcsnorm_s-many-marks", "wcsnorm_s-long", "wcsnorm_compose_s", "wcsicmp_s", "wcsnatcmp_s", "printf-%ls-unconvertible"};
@@ -106,7 +59,8 @@ static int run_site(const acase_t *c, int *cleared, int *isfmt, int *fault) {
         *isfmt = 1;
         a_armed = 1;
         AR_GUARDED(
-            if (c->site == S_LS) rc = (ent & 2) ? snprintf_s(nbuf, dmax, "x%lsy%dz", ws[c->size & 3], 7) : sprintf_s(nbuf, dmax, "x%lsy%dz", ws[c->size & 3], 7);
+            if (c->site == S_LS && (c->variant & 4)) rc = (ent & 2) ? snprintf_s(nbuf, dmax, "%*ls", 4 + c->size, ws[c->size & 3]) : sprintf_s(nbuf, dmax, "%-*ls|", 4 + c->size, ws[c->size & 3]);
+            else if (c->site == S_LS) rc = (ent & 2) ? snprintf_s(nbuf, dmax, "x%lsy%dz", ws[c->size & 3], 7) : sprintf_s(nbuf, dmax, "x%lsy%dz", ws[c->size & 3], 7);
             else if (c->site == S_LS_BAD) rc = (ent & 2) ? snprintf_s(nbuf, dmax, "x%lsy", bad) : sprintf_s(nbuf, dmax, "x%lsy", bad);
             else if (c->site == S_LONGDOUBLE) rc = (ent & 2) ? snprintf_s(nbuf, dmax, (c->variant & 4) ? "%Le tail %d" : "%Lf tail %d", ld, 3) : sprintf_s(nbuf, dmax, (c->variant & 4) ? "%Lg tail %d" : "%Lf tail %d", ld, 3);
             else if (c->variant & 4) rc = (ent & 2) ? snprintf_s(nbuf, dmax, "%La tail %d", ld, 3) : sprintf_s(nbuf, dmax, "%La tail %d", ld, 3);
@@ -156,6 +110,8 @@ static int run_site(const acase_t *c, int *cleared, int *isfmt, int *fault) {
         size_t n = 6 + (size_t)c->size;
         for (i = 0; i < n; i++) { wsrc[i] = L'A' + (wchar_t)(i % 20); wsrc2[i] = L'a' + (wchar_t)(i % 20); }
         wsrc[n] = wsrc2[n] = 0;
+        if (c->variant & 1) wsrc2[n / 2] = 0x110000;      /* the second operand fails to fold */
+        if ((c->variant & 3) == 2) wsrc[n / 2] = 0x110000; /* the first one does */
         a_armed = 1;
         AR_GUARDED(
             if (c->site == S_WCSICMP) rc = wcsicmp_s(wsrc, n + 8, wsrc2, n + 8, &res);
